@@ -386,7 +386,11 @@ func (r *Recomposer) recomp(v any, rv reflect.Value) {
 		switch {
 		case et.Kind() == reflect.Interface:
 			for k, m := range vm {
-				rv.SetMapIndex(reflect.ValueOf(k), reflect.ValueOf(r.recompAny(m)))
+				mv := reflect.ValueOf(r.recompAny(m))
+				if !mv.IsValid() { // a nil member, not a delete
+					mv = reflect.Zero(et)
+				}
+				rv.SetMapIndex(reflect.ValueOf(k), mv)
 			}
 		case et.Kind() == reflect.Ptr:
 			et = et.Elem()
